@@ -461,37 +461,55 @@ def d5_frame_recurrence(ctx, ii, ff):
         if isinstance(t, ast.Compare) and isinstance(t.ops[0], (ast.Is, ast.IsNot)):
             return True          # default substitution
         return False
-    try:
-        body = [s for s in ff.node.body if not (isinstance(s, ast.Expr) and isinstance(s.value, ast.Constant))]
+    body = [s for s in ff.node.body if not (isinstance(s, ast.Expr) and isinstance(s.value, ast.Constant))]
+
+    def once():
+        env = dict(fn)
         if not isinstance(body[-1], ast.Return) or not isinstance(body[-1].value, ast.Tuple) or len(body[-1].value.elts) != 3:
             raise P.Unsupported('fit_frames does not end in `return a, b, c`')
         P.exec_block(body[:-1], env, lambda *a: None, on_if=on_if2)
-        ret = tuple(P.of_expr(x, env) for x in body[-1].value.elts)
+        return tuple(P.of_expr(x, env) for x in body[-1].value.elts)
+    cases = []
+    try:
+        cases = P.with_cases(once)
     except (P.Unsupported, P.NotPoly) as e:
         ctx.assume('R-TABLE', 'D5', ff, None, 'fit-frames-relations', 'fit_frames returns (n, n*step + chunklen - step, total - covered)',
                    detail=f'outside the modelled subset: {e}')
-    if ret is not None:
-        n_, cov, rem = ret
+    # what holds where the count is computed: the validated domain and the early return for chunklen > totallen
+    # (their presence is decided by D3); used only to discard max()/min() cases that cannot occur
+    facts = [L, P.add(Cc, P.const(1), -1), P.add(St, P.const(1), -1), P.add(L, Cc, -1)]
+    feasible = [(c, r) for c, r in cases if not P.infeasible(c, facts)]
+    rel = {'ok': [], 'bad': [], 'assumed': []}
+    cnt = {'ok': [], 'bad': [], 'assumed': []}
+    wn = P.add(P.floordiv(P.add(L, Cc, -1), St), P.const(1))
+    for conds, (n_, cov, rem) in feasible:
+        where = ('in the case ' + ' and '.join(t for _q, t in conds) + ': ') if conds else ''
         wcov = P.add(P.add(P.mul(n_, St), Cc), St, -1)
         if P.has_placeholder(cov, rem):
-            ctx.assume('R-TABLE', 'D5', ff, body[-1], 'fit-frames-relations',
-                       'fit_frames returns (n, n*step + chunklen - step, total - covered)',
-                       detail='a value on the way is computed by something outside the polynomial fragment')
+            rel['assumed'].append(where + 'a value on the way is computed by something outside the polynomial fragment')
+        elif cov == wcov and rem == P.add(L, cov, -1):
+            rel['ok'].append(where + f'returns ({P.text(n_)}, {P.text(cov)}, {P.text(rem)})')
         else:
-            ctx.decide(cov == wcov and rem == P.add(L, cov, -1), 'R-TABLE', 'D5', ff, body[-1], 'fit-frames-relations',
-                       'fit_frames: covered length = n*step + chunklen - step and remainder = total - covered (polynomial identities)',
-                       detail=f'returns ({P.text(n_)}, {P.text(cov)}, {P.text(rem)})')
-        wn = P.add(P.floordiv(P.add(L, Cc, -1), St), P.const(1))
+            rel['bad'].append(where + f'returns ({P.text(n_)}, {P.text(cov)}, {P.text(rem)})')
         if n_ == wn:
-            ctx.ok('R-TABLE', 'D5', ff, body[-1], 'fit-frames-count',
-                   'fit_frames: number of full frames = floor((total - chunklen)/step) + 1 (normal form)')
+            cnt['ok'].append(where + f'count is {P.text(n_)}')
         elif all(a in ('totallen', 'chunklen', 'steplen') or a.startswith('floordiv(') for m in n_ for a in m) and \
                 not any('<' in a for m in n_ for a in m):
-            ctx.bad('R-TABLE', 'D5', ff, body[-1], 'fit-frames-count',
-                    'fit_frames: number of full frames = floor((total - chunklen)/step) + 1 (normal form)',
-                    detail=f'count is {P.text(n_)}, which is a different polynomial/floor-division form than '
-                           f'{P.text(wn)}')
+            cnt['bad'].append(where + f'count is {P.text(n_)}, which is a different polynomial/floor-division form than {P.text(wn)}')
         else:
-            ctx.assume('R-TABLE', 'D5', ff, body[-1], 'fit-frames-count',
-                       'fit_frames: number of full frames = floor((total - chunklen)/step) + 1',
-                       detail=f'count `{P.text(n_)}` uses operations outside the polynomial / floor-division fragment')
+            cnt['assumed'].append(where + f'count `{P.text(n_)}` uses operations outside the polynomial / floor-division fragment')
+    if feasible:
+        ncase = f' ({len(feasible)} feasible max/min case(s) of {len(cases)})' if len(cases) > 1 else ''
+        for key, title, res in (
+                ('fit-frames-relations', 'fit_frames: covered length = n*step + chunklen - step and remainder = total - covered (polynomial identities)', rel),
+                ('fit-frames-count', 'fit_frames: number of full frames = floor((total - chunklen)/step) + 1 (normal form)', cnt)):
+            if res['bad']:
+                ctx.bad('R-TABLE', 'D5', ff, body[-1], key, title, detail='; '.join(res['bad']) + ncase)
+            elif res['assumed']:
+                ctx.assume('R-TABLE', 'D5', ff, body[-1], key, title, detail='; '.join(res['assumed']) + ncase)
+            else:
+                ctx.decide(True, 'R-TABLE', 'D5', ff, body[-1], key, title, detail='; '.join(res['ok']) + ncase)
+    elif cases:
+        ctx.assume('R-TABLE', 'D5', ff, body[-1], 'fit-frames-count',
+                   'fit_frames: number of full frames = floor((total - chunklen)/step) + 1',
+                   detail='every max/min case contradicts the validated domain')
